@@ -37,7 +37,18 @@ def apply_fault(path, kind, rng):
     elif kind == "wrong_type":
         new = "foo: bar\nbaz: [1, 2]\n"
     elif kind == "bad_xpath":
-        new, n = re.subn(r'(match:\s*)"[^"\n]*"', r'\1"((( and ]"', text, count=1)
+        # one xpath somewhere in the file (not the first one: the entries before it load, so the failure comes in the middle of the load)
+        spots = [m for m in re.finditer(r'((?:match|if|x):\s*)"[^"\n]*"', text)]
+        n = len(spots)
+        entries = [m for m in re.finditer(r'^(\s*)- "', text, flags=re.M)]
+        if os.path.basename(path).startswith("unicode") and len(entries) > 20:
+            # a character table: an entry with an invalid xpath 10-25 % into the file (most of the characters come after it)
+            m = entries[rng.randrange(len(entries) // 10, len(entries) // 4)]
+            new = text[:m.start()] + m.group(1) + '- "\uF8F0": [x: "((( and ]"]\n' + text[m.start():]
+            n = 1
+        elif n:
+            m = spots[0] if n < 3 else spots[rng.randrange(n // 3, n - 1)]
+            new = text[:m.start()] + m.group(1) + '"((( and ]"' + text[m.end():]
         if n == 0:
             new = re.sub(r'(\[\s*[tx]:\s*)"[^"\n]*"', r'\1"\\ud800"', text, count=1) if False else text.replace("- ", "- [[[", 1)
     elif kind == "unknown_key":
@@ -109,6 +120,10 @@ def run(ctx):
             body += [{"op": "set_mathml", "xml": e}] + calls
         rep = im.run([{"op": "session"}] + pre + body + [{"op": "hook", "which": "rule_files"}])
         baseline = outputs(rep[1 + len(pre):-1])
+        # the same configuration on the unmodified rules directory with the default CheckRuleFiles (re-pointing scenarios)
+        pre_clean = [{"op": "rules_dir", "dir": core.rules_dir()}] + pre[2:]
+        pre_copy = [{"op": "rules_dir", "dir": COPY}] + pre[2:]
+        baseline_clean = outputs(im.run([{"op": "session"}] + pre_clean + body)[1 + len(pre_clean):])
         if rep[-1].get("r") != "ok":
             raise core.CheckBroken("hook H6 unavailable: " + json.dumps(rep[-1])[:200])
         files = {n: p for n, p in rep[-1]["v"]}
@@ -120,12 +135,16 @@ def run(ctx):
         reachable.append(os.path.join(COPY, "prefs.yaml"))
         targets = [(f, k) for f in reachable for k in FAULTS]
         if ctx.tier == "quick":
-            targets = rng.sample(targets, 24)
+            # the lazily loaded tables and the shared ones first (a failure in the middle of their load is the delicate case), then a sample
+            must = [(f, k) for f in reachable for k in ("bad_xpath", "truncated") if os.path.basename(f) in ("unicode-full.yaml", "unicode.yaml", "definitions.yaml")]
+            targets = must + rng.sample(targets, 30)
         for f, kind in targets:
             n_scen += 1
             rel = os.path.relpath(f, COPY)
             orig = open(f, encoding="utf-8").read()
-            order = rng.choice(["call-fault-call-repair-call", "fault-call-repair-repoint-call"])
+            order = rng.choice(["call-fault-call-repair-call", "fault-call-repair-repoint-call", "clean-repoint_to_broken-repoint_back", "broken-repoint_to_clean"])
+            if ctx.tier == "quick" and n_scen <= len(must):
+                order = ["clean-repoint_to_broken-repoint_back", "broken-repoint_to_clean"][n_scen % 2]
             lines_log = []
 
             def do(reqs):
@@ -162,6 +181,28 @@ def run(ctx):
                         k = next(i for i in range(len(baseline)) if outputs(r3)[i] != baseline[i])
                         oracle_fail.append({"why": "output after the repair differs from the output before the fault (CheckRuleFiles=All)", "file": rel, "fault": kind, "call": body[k],
                                             "before": baseline[k], "after": outputs(r3)[k], "order": order, "lines": list(lines_log)})
+                elif order in ("clean-repoint_to_broken-repoint_back", "broken-repoint_to_clean"):
+                    # default CheckRuleFiles; the broken directory is left broken and the session is pointed (back) to a good one
+                    apply_fault(f, kind, rng)
+                    if os.path.exists(f):
+                        t = tick(); os.utime(f, (t, t))
+                    if order == "clean-repoint_to_broken-repoint_back":
+                        do([{"op": "session"}] + pre_clean + body)
+                        r2 = do(pre_copy + body)
+                    else:
+                        r2 = do([{"op": "session"}] + pre_copy + body)[1:]
+                    crashed((pre_copy + body, r2), "pointed to a directory with a broken file")
+                    errs = [r for r in r2 if r.get("r") == "err"]
+                    if errs:
+                        n_err += 1
+                        name_check(errs, f, rel, kind, order, lines_log, oracle_fail, counts)
+                    else:
+                        n_silent += 1
+                    r3 = do(pre_clean + body)
+                    if not crashed((pre_clean + body, r3), "pointed (back) to the good directory") and outputs(r3[len(pre_clean):]) != baseline_clean:
+                        k = next(i for i in range(len(baseline_clean)) if outputs(r3[len(pre_clean):])[i] != baseline_clean[i])
+                        oracle_fail.append({"why": "output after pointing (back) to a good rules directory differs from a clean session", "file": rel, "fault": kind, "call": body[k],
+                                            "before": baseline_clean[k], "after": outputs(r3[len(pre_clean):])[k], "order": order, "lines": list(lines_log)})
                 else:
                     apply_fault(f, kind, rng)
                     if os.path.exists(f):
@@ -222,7 +263,7 @@ def run(ctx):
     ctx.coverage.update({
         "evaluations": n_scen, "distinct_nontrivial": n_err,
         "rule": "on a private copy of Rules/: every (quick: 24 sampled per configuration) file reachable from the configuration (the eleven resolved files, their includes, prefs.yaml) x 7 fault kinds "
-                "(deleted, empty, truncated at a YAML entry boundary, wrong top-level type, invalid xpath, unknown key, garbage bytes) x two orders (call-fault-call-repair-call with "
+                "(deleted, empty, truncated at a YAML entry boundary, wrong top-level type, invalid xpath, unknown key, garbage bytes) x four orders (clean directory -> directory with the broken file -> back; session started on the broken directory -> clean directory (both with the default CheckRuleFiles); call-fault-call-repair-call with "
                 "CheckRuleFiles=All; fault-call-repair-repoint-call); speech, overview, braille and navigation on two expressions that need the full Unicode tables. No call may crash, an error must "
                 "name the file, outputs after the repair must equal the outputs before. non-trivial = scenarios in which the fault produced an error",
         "configurations": configs, "scenarios_per_fault": per_fault, "faults_reported_as_errors": n_err, "faults_without_visible_effect": n_silent, "repair_reads_predicted": n_pred, "error_classes": counts,
